@@ -4,53 +4,53 @@ Model of the reward layer:
 * reward components (src/primaite/game/agent/rewards.py): `DummyReward`, `DatabaseFileIntegrity`, `WebServer404Penalty`,
   `WebpageUnavailablePenalty`, `GreenAdminDatabaseUnreachablePenalty`, `SharedReward`, `ActionPenalty`;
   the three sticky ones carry their memory (`self.reward`) inside the component value;
+  each `calculate(state, last_action_response)` is modelled on the state DICTIONARY (`PyVal`, Model/RewardState.lean) — the
+  component builds its `location_in_state`, fetches that leaf with `access_from_nested_dict` and reads the leaf and the
+  fields `action` / `request` / `response.status` of the agent's latest history item — with the exceptions Python raises on
+  a leaf of the wrong shape (`calc…E : Except Err …`);
 * `RewardFunction.update` (left fold `total += weight * comp.calculate(...)`);
 * `AbstractAgent.process_action_response / update_reward / save_reward_to_history` (src/primaite/game/agent/interface.py);
 * `PrimaiteGame.setup_reward_sharing`, `update_agents`, the agent part of `from_config`, and the act/advance/update
-  part of a step (src/primaite/game/game.py).
+  part of a step (src/primaite/game/game.py); `PrimaiteGymEnv.reset` (a fresh game from the same configuration).
+
+Two layers. The `…E` functions are the model of the code, exceptions included (`gameStepE`, what the driver runs). The total
+functions without `E` (`calcComp`, `updateComps`, `updOne`, `gameStep`) agree with them whenever no component raises
+(`Lemmas/RewardExc.lean`: `gameStepE … = .ok g' → gameStep … = .ok g'`, and `gameStepE` succeeds on a well-formed game
+whenever every configured component's leaf has a shape `calculate` accepts); the algebraic development (fixed point, order
+irrelevance, totals) is carried out on the total functions.
 
 Values are exact rationals (`Rat`, Lean core): floats are not modelled; the rig drives the code with dyadic weights and
-values, for which float arithmetic is exact, and compares `Fraction(float)`.
+values, for which float arithmetic is exact, and compares `Fraction(float)`; for other literals see Lemmas/RewardRounding.lean.
 
-The simulation state is abstracted to exactly what the components read from `describe_state()`:
-file health, a service's `response_codes_this_timestep`, a web browser's history outcomes (absent = the path is
-`NOT_PRESENT_IN_STATE`).  Where Python raises (`KeyError` for an unknown agent name, `IndexError` for an empty history,
-`RuntimeError` for cyclic sharing) the model returns an explicit error.
-
-`WebpageUnavailablePenalty` is modelled as repaired by the `fix:` commit for F-18 (`calcWebpage`); the code as it was
-is kept as `calcWebpageAsWritten` for the counterexample theorem.
+`WebpageUnavailablePenalty` is modelled as repaired by the `fix:` commit for F-18 (`calcWebpageE`); the code as it was
+is kept as `calcWebpageAsWrittenE` for the counterexample theorem.
 Core Lean only.
 -/
 import PrimaiteModel.Model.Basic
 import PrimaiteModel.Model.RewardGraph
+import PrimaiteModel.Model.RewardState
 namespace Primaite.Reward
 open Primaite.RewardGraph
 
 abbrev Val := Rat
 
-/-- `outcome` of a web-browser history entry: `"PENDING"`, an int status code, or any other value
-(e.g. `"SERVER_UNREACHABLE"`). -/
-inductive Outcome | pending | code (n : Nat) | other
-deriving DecidableEq, Repr
+/-- The post-step `describe_state()` dictionary. -/
+abbrev SimState := PyVal
 
-/-- What the reward components read from the post-step `describe_state()` dictionary. A missing key = the path is
-`NOT_PRESENT_IN_STATE`. -/
-structure SimState where
-  /-- (node, folder, file) ↦ `health_status` -/
-  files : List ((Name × Name × Name) × Nat) := []
-  /-- (node, service) ↦ `response_codes_this_timestep` (`[]` when the key is missing, `None` or empty: all falsy) -/
-  services : List ((Name × Name) × List Nat) := []
-  /-- node ↦ outcomes of `applications/web-browser/history`, oldest first -/
-  browsers : List (Name × List Outcome) := []
-deriving Repr
-
-/-- The fields of the agent's latest `AgentHistoryItem` that components read. -/
+/-- The agent's latest `AgentHistoryItem` (`last_action_response`); `reward` is kept beside the item in `Agent.hist`. -/
 structure Item where
+  timestep : Nat := 0
   action : String
-  request : List String
-  /-- `response.status == "success"` -/
-  ok : Bool
-deriving DecidableEq, Repr
+  parameters : PyVal := .dict []
+  /-- the request list sent to the simulator (elements: str, int, float, dict) -/
+  request : PyVal
+  /-- `response.status` -/
+  status : String
+  /-- `response.data` -/
+  data : PyVal := .dict []
+  rewardInfo : PyVal := .dict []
+  observation : PyVal := .none
+deriving Repr
 
 inductive Comp
   | dummy
@@ -65,64 +65,161 @@ deriving DecidableEq, Repr
 def browserRequest (node : Name) : List String := ["network", "node", node, "application", "web-browser", "execute"]
 def dbClientRequest (node : Name) : List String := ["network", "node", node, "application", "database-client", "execute"]
 
-/-- `status2rew` -/
-def status2rew (c : Nat) : Val := if c = 200 then 1 else if c = 404 then -1 else 0
+/-- `location_in_state` of the three components that read the state -/
+def fileLoc (node folder file : Name) : List String :=
+  ["network", "nodes", node, "file_system", "folders", folder, "files", file]
+def web404Loc (node service : Name) : List String := ["network", "nodes", node, "services", service]
+def webpageLoc (node : Name) : List String := ["network", "nodes", node, "applications", "web-browser"]
 
-/-- `sum(map(status2rew, codes)) / len(codes)` -/
-def codesReward (codes : List Nat) : Val := (codes.map status2rew).sum / (codes.length : Rat)
+/-- `last_action_response.request == [...]` -/
+def Item.requestIs (it : Item) (path : List String) : Bool := PyVal.pyEq it.request (PyVal.strs path)
+
+/-- `last_action_response.response.status == "success"` -/
+def Item.ok (it : Item) : Bool := it.status == "success"
+
+/-- `status2rew` as a table (first match) and its default -/
+def status2rewTable : List (Int × Rat) := [(200, 1), (404, -1)]
+
+/-- `status2rew` -/
+def status2rew (c : PyVal) : Val := PyVal.tableValue status2rewTable 0 c
+
+/-- value of a `health_status` -/
+def healthValue (h : PyVal) : Val :=
+  if PyVal.pyEq h (.int 2) then -1 else if PyVal.pyEq h (.int 1) then 1 else 0
 
 /-- `DatabaseFileIntegrity.calculate` -/
-def calcFile (s : SimState) (node folder file : Name) : Val :=
-  match s.files.lookup (node, folder, file) with
-  | none => 0
-  | some h => if h = 2 then -1 else if h = 1 then 1 else 0
+def calcFileE (s : SimState) (node folder file : Name) : Except Err Val :=
+  match PyVal.access s (fileLoc node folder file) with
+  | .error e => .error e
+  | .ok leaf =>
+    if leaf.isNotPresent then .ok 0
+    else
+      match leaf.getItem "health_status" with
+      | .error e => .error e
+      | .ok h => .ok (healthValue h)
 
 /-- `WebServer404Penalty.calculate`: value and new memory -/
-def calcWeb404 (s : SimState) (node service : Name) (sticky : Bool) (mem : Val) : Val × Val :=
-  match s.services.lookup (node, service) with
-  | none => (0, mem)                       -- service not in the state: returns 0.0, memory untouched
-  | some codes =>
-    if codes ≠ [] then (codesReward codes, codesReward codes)
-    else if !sticky then (0, 0)
-    else (mem, mem)
+def calcWeb404E (s : SimState) (node service : Name) (sticky : Bool) (mem : Val) : Except Err (Val × Val) :=
+  match PyVal.access s (web404Loc node service) with
+  | .error e => .error e
+  | .ok leaf =>
+    if leaf.isNotPresent then .ok (0, mem)       -- service not in the state: returns 0.0, memory untouched
+    else
+      match leaf.get "response_codes_this_timestep" with
+      | .error e => .error e
+      | .ok codes =>
+        if codes.truthy then
+          match PyVal.avgTable status2rewTable 0 codes with
+          | .error e => .error e
+          | .ok v => .ok (v, v)
+        else if !sticky then .ok (0, 0)
+        else .ok (mem, mem)
 
-/-- value of the last browser history entry -/
-def outcomeReward : Outcome → Val
-  | .pending => 0
-  | .code n => if n = 200 then 1 else -1
-  | .other => -1
+/-- value of the last browser history entry's `outcome` -/
+def outcomeReward (o : PyVal) : Val :=
+  if PyVal.pyEq o (.str "PENDING") then 0 else if PyVal.pyEq o (.int 200) then 1 else -1
 
 /-- the branch of `WebpageUnavailablePenalty.calculate` that recomputes the value from the response and the history -/
-def webpageFresh (hist : Option (List Outcome)) (it : Item) : Val :=
-  if !it.ok then -1
-  else match hist with
-    | none => 0
-    | some h =>
-      match h.getLast? with
-      | none => 0
-      | some o => outcomeReward o
+def webpageFreshE (leaf : PyVal) (it : Item) : Except Err Val :=
+  if !it.ok then .ok (-1)
+  else if leaf.isNotPresent then .ok 0
+  else
+    match leaf.getItem "history" with
+    | .error e => .error e
+    | .ok hist =>
+      if !hist.truthy then .ok 0
+      else
+        match hist.last with
+        | .error e => .error e
+        | .ok entry =>
+          match entry.getItem "outcome" with
+          | .error e => .error e
+          | .ok o => .ok (outcomeReward o)
 
 /-- `WebpageUnavailablePenalty.calculate` (after the F-18 repair): value = new memory -/
-def calcWebpage (s : SimState) (it : Item) (node : Name) (sticky : Bool) (mem : Val) : Val :=
-  let hist := s.browsers.lookup node
-  let mem1 := if hist.isNone then 0 else mem
-  if it.request ≠ browserRequest node then
-    (if sticky then mem1 else 0)
-  else webpageFresh hist it
+def calcWebpageE (s : SimState) (it : Item) (node : Name) (sticky : Bool) (mem : Val) : Except Err Val :=
+  match PyVal.access s (webpageLoc node) with
+  | .error e => .error e
+  | .ok leaf =>
+    let mem1 := if leaf.isNotPresent then 0 else mem
+    if !it.requestIs (browserRequest node) then .ok (if sticky then mem1 else 0)
+    else webpageFreshE leaf it
 
 /-- `WebpageUnavailablePenalty.calculate` as it was before the repair: a non-sticky component without a new request
 falls through to the recomputation. -/
-def calcWebpageAsWritten (s : SimState) (it : Item) (node : Name) (sticky : Bool) (mem : Val) : Val :=
-  let hist := s.browsers.lookup node
-  let mem1 := if hist.isNone then 0 else mem
-  if it.request ≠ browserRequest node ∧ sticky then mem1
-  else webpageFresh hist it
+def calcWebpageAsWrittenE (s : SimState) (it : Item) (node : Name) (sticky : Bool) (mem : Val) : Except Err Val :=
+  match PyVal.access s (webpageLoc node) with
+  | .error e => .error e
+  | .ok leaf =>
+    let mem1 := if leaf.isNotPresent then 0 else mem
+    if !it.requestIs (browserRequest node) && sticky then .ok mem1
+    else webpageFreshE leaf it
 
-/-- `GreenAdminDatabaseUnreachablePenalty.calculate`: value = new memory -/
+/-- `GreenAdminDatabaseUnreachablePenalty.calculate`: value = new memory (never raises) -/
 def calcGreenDb (it : Item) (node : Name) (sticky : Bool) (mem : Val) : Val :=
-  if it.request = dbClientRequest node then (if it.ok then 1 else -1)
+  if it.requestIs (dbClientRequest node) then (if it.ok then 1 else -1)
   else if !sticky then 0
   else mem
+
+/-- what `GreenAdminDatabaseUnreachablePenalty.calculate` writes into `last_action_response.reward_info` -/
+def greenDbRewardInfo (it : Item) (node : Name) : PyVal :=
+  .dict [(.str "connection_attempt_status", .str (if it.requestIs (dbClientRequest node) then it.status else "n/a"))]
+
+/-- `ActionPenalty.calculate` -/
+def calcActionPenalty (it : Item) (ap dn : Val) : Val := if it.action == "do-nothing" then dn else ap
+
+/-- `comp.calculate(state, last_action_response)` with the exceptions it may raise: the value and the component afterwards
+(memory updated). `cur` answers `SharedReward`'s callback `self.agents[name].reward_function.current_reward`. -/
+def calcCompE (s : SimState) (it : Item) (cur : Name → Val) : Comp → Except Err (Val × Comp)
+  | .dummy => .ok (0, .dummy)
+  | .fileIntegrity n fo fi => (calcFileE s n fo fi).map (fun v => (v, .fileIntegrity n fo fi))
+  | .web404 n sv st m => (calcWeb404E s n sv st m).map (fun r => (r.1, .web404 n sv st r.2))
+  | .webpage n st m => (calcWebpageE s it n st m).map (fun v => (v, .webpage n st v))
+  | .greenDb n st m => let v := calcGreenDb it n st m; .ok (v, .greenDb n st v)
+  | .shared a => .ok (cur a, .shared a)
+  | .actionPenalty ap dn => .ok (calcActionPenalty it ap dn, .actionPenalty ap dn)
+
+/-- the leaf of the state dictionary a component names (`location_in_state`), if it reads the state at all -/
+def Comp.loc : Comp → Option (List String)
+  | .fileIntegrity n fo fi => some (fileLoc n fo fi)
+  | .web404 n sv _ _ => some (web404Loc n sv)
+  | .webpage n _ _ => some (webpageLoc n)
+  | _ => none
+
+/-- which fields of the agent's own latest history item a component reads -/
+structure Reads where
+  action : Bool := false
+  request : Bool := false
+  status : Bool := false
+deriving DecidableEq, Repr
+
+def Comp.reads : Comp → Reads
+  | .webpage _ _ _ => { request := true, status := true }
+  | .greenDb _ _ _ => { request := true, status := true }
+  | .actionPenalty _ _ => { action := true }
+  | _ => {}
+
+/-! ### Total versions (the value is only meaningful when the `E` version does not raise) -/
+
+def calcFile (s : SimState) (node folder file : Name) : Val :=
+  match calcFileE s node folder file with
+  | .ok v => v
+  | .error _ => 0
+
+def calcWeb404 (s : SimState) (node service : Name) (sticky : Bool) (mem : Val) : Val × Val :=
+  match calcWeb404E s node service sticky mem with
+  | .ok r => r
+  | .error _ => (0, mem)
+
+def calcWebpage (s : SimState) (it : Item) (node : Name) (sticky : Bool) (mem : Val) : Val :=
+  match calcWebpageE s it node sticky mem with
+  | .ok v => v
+  | .error _ => mem
+
+def calcWebpageAsWritten (s : SimState) (it : Item) (node : Name) (sticky : Bool) (mem : Val) : Val :=
+  match calcWebpageAsWrittenE s it node sticky mem with
+  | .ok v => v
+  | .error _ => mem
 
 /-- `comp.calculate(state, last_action_response)`: the value and the component afterwards (memory updated).
 `cur` answers `SharedReward`'s callback `self.agents[name].reward_function.current_reward`. -/
@@ -133,7 +230,7 @@ def calcComp (s : SimState) (it : Item) (cur : Name → Val) : Comp → Val × C
   | .webpage n st m => let v := calcWebpage s it n st m; (v, .webpage n st v)
   | .greenDb n st m => let v := calcGreenDb it n st m; (v, .greenDb n st v)
   | .shared a => (cur a, .shared a)
-  | .actionPenalty ap dn => ((if it.action = "do-nothing" then dn else ap), .actionPenalty ap dn)
+  | .actionPenalty ap dn => (calcActionPenalty it ap dn, .actionPenalty ap dn)
 
 /-- `RewardFunction.update`'s loop: accumulator `total`, components rebuilt with their new memories. -/
 def updateComps (s : SimState) (it : Item) (cur : Name → Val) :
@@ -157,9 +254,6 @@ structure Agent where
   /-- `history`, newest first, with the `reward` field of each item (`none` until `save_reward_to_history`) -/
   hist : List (Item × Option Val) := []
 deriving Repr
-
-inductive Err | cycle | keyError | indexError
-deriving DecidableEq, Repr
 
 structure Game where
   /-- `game.agents`: a dict, in insertion order -/
@@ -244,7 +338,7 @@ def fromConfig (σ : List Name → List Name) (cfgs : List AgentCfg) : Except Er
   let as := buildAgents cfgs
   let graph := sharingGraph σ as
   if hasCycle graph then .error .cycle
-  else updateAgents {} { agents := as, order := topoSort graph, stepCounter := 0 }
+  else updateAgents (.dict []) { agents := as, order := topoSort graph, stepCounter := 0 }
 
 /-- `apply_agent_actions`: every agent (dict order) gets exactly one new history item; `items` is what each agent's
 `get_action` / `format_request` / the simulator's response produce this step -/
@@ -258,5 +352,51 @@ def advance (g : Game) : Game := { g with stepCounter := g.stepCounter + 1 }
 actions, counter, then `update_agents` on the post-step state -/
 def gameStep (g : Game) (items : Name → Item) (s : SimState) : Except Err Game :=
   updateAgents s (advance (act items g))
+
+/-! ### The same pipeline with the exceptions a component may raise (what the driver runs) -/
+
+/-- `RewardFunction.update`'s loop; the first component that raises ends it -/
+def updateCompsE (s : SimState) (it : Item) (cur : Name → Val) :
+    Val → List (Comp × Val) → Except Err (Val × List (Comp × Val))
+  | acc, [] => .ok (acc, [])
+  | acc, (c, w) :: rest =>
+    match calcCompE s it cur c with
+    | .error e => .error e
+    | .ok r =>
+      match updateCompsE s it cur (acc + w * r.1) rest with
+      | .error e => .error e
+      | .ok t => .ok (t.1, (r.2, w) :: t.2)
+
+/-- one iteration of `update_agents`' loop, a raising component included -/
+def updOneE (s : SimState) (g : Game) (name : Name) : Except Err Game :=
+  match g.agents.lookup name with
+  | none => .error .keyError
+  | some a =>
+    if g.stepCounter > 0 then
+      match a.hist with
+      | [] => .error .indexError
+      | (it, _) :: older =>
+        if (sharedNames a.comps).all (fun v => v ∈ agentKeys g.agents) then
+          match updateCompsE s it (curOf g.agents) 0 a.comps with
+          | .error e => .error e
+          | .ok r =>
+            let a' : Agent := { comps := r.2, current := r.1, total := a.total + r.1, hist := (it, some r.1) :: older }
+            .ok { g with agents := setAgent name a' g.agents }
+        else .error .keyError
+    else
+      .ok { g with agents := setAgent name { a with total := a.total + a.current } g.agents }
+
+def updateAgentsE (s : SimState) (g : Game) : Except Err Game := foldE (updOneE s) g g.order
+
+/-- one `PrimaiteGame.step` / `PrimaiteGymEnv.step`, reward-relevant part, exceptions included -/
+def gameStepE (g : Game) (items : Name → Item) (s : SimState) : Except Err Game :=
+  updateAgentsE s (advance (act items g))
+
+/-- `PrimaiteGymEnv.reset`: a fresh game from the (same) configuration — `from_config` runs `update_agents` once, `reset`
+runs it a second time, both with `step_counter == 0` (no reward is computed; `total += current` adds the fresh 0). -/
+def resetEnv (σ : List Name → List Name) (cfgs : List AgentCfg) (s0 : SimState) : Except Err Game :=
+  match fromConfig σ cfgs with
+  | .error e => .error e
+  | .ok g => updateAgents s0 g
 
 end Primaite.Reward
